@@ -151,6 +151,38 @@ class Result:
         self.nontrivial = set()
         self.contents = set()
         self.samples = []
+        self.model_aborted = []
+
+
+def model_outputs(exe, histories, pens):
+    """per history the driver's output lines (incl. the pen line), or None when
+    the driver process died or timed out on that history"""
+    import subprocess
+    lines = []
+    for h in histories:
+        lines.append(eng_run.pen_line(pens))
+        lines += [l for l, _ in h]
+    try:
+        out = common.run_driver(exe, lines, shards=1, timeout=600)
+        res, pos = [], 0
+        for h in histories:
+            res.append(out[pos:pos + len(h) + 1])
+            pos += len(h) + 1
+        return res
+    except common.TieBroken:
+        pass
+    res = []
+    for h in histories:
+        ls = [eng_run.pen_line(pens)] + [l for l, _ in h]
+        try:
+            p = subprocess.run([exe], input='\n'.join(ls) + '\n', capture_output=True, text=True, timeout=60)
+            ol = p.stdout.splitlines()
+            res.append(ol if (p.returncode == 0 and len(ol) == len(ls)) else None)
+        except subprocess.TimeoutExpired:
+            res.append(None)
+    if all(r is None for r in res):
+        raise common.TieBroken('model driver restr', 'driver fails on every history of a chunk')
+    return res
 
 
 def run_histories(exe, histories, pens, res=None):
@@ -158,11 +190,16 @@ def run_histories(exe, histories, pens, res=None):
     eos (in-process); compares line by line"""
     import c03_impl
     res = res or Result()
-    mout = eng_run.run_sharded(exe, histories, pens)
-    pos = 0
+    outs = model_outputs(exe, histories, pens)
     for hi, h in enumerate(histories):
+        mout = outs[hi]
+        if mout is None:
+            # the extracted engine model did not finish this history (stack overflow / time limit):
+            # nothing to compare; counted and kept for inspection
+            res.model_aborted.append([l for l, _ in h])
+            continue
         impl = c03_impl.RImpl()
-        pos += 1
+        pos = 1
         res.histories += 1
         dead = False
         flips = set()
@@ -217,11 +254,12 @@ def fr(x):
 
 
 def fs(x):
-    return str(Fraction(x))
+    """binary num/den token, as the runners print rationals"""
+    return eng_impl.qout(Fraction(x))
 
 
 def fl(values):
-    return ';'.join(str(v) for v in sorted(Fraction(x) for x in values))
+    return ';'.join(fs(x) for x in sorted(Fraction(x) for x in values))
 
 
 class Stateless:
@@ -311,7 +349,7 @@ class Stateless:
             return
         for it, u in uses:
             if u > 0:
-                self.taint(it, rt, 'res,%s,%s,%s' % (total, out, fs(u)))
+                self.taint(it, rt, 'res,%s,%s,%s' % (fs(total), fs(out), fs(u)))
 
     def slot(self, rt, used, holder, attr, keys):
         v = self.holder(holder, attr)
@@ -367,7 +405,7 @@ class Stateless:
             for it in loaded:
                 v = self.tattrs(it).get(A.volume)
                 if self.is_module(it) and v is not None and v > 3500:
-                    self.taint(it, R.capital_item, 'cap,%s,3500' % fs(v))
+                    self.taint(it, R.capital_item, 'cap,%s,%s' % (fs(v), fs(3500)))
         # charges
         for it in loaded:
             if not self.is_module(it):
@@ -484,15 +522,19 @@ class Stateless:
         return self.data
 
 
-def oracle_point(impl, f, rng=None):
+def oracle_point(impl, f, rng=None, all_singletons=False):
     """the property itself at one observation point, on the implementation:
     data == stateless rules, keys live, skip is a filter. None if it holds."""
     import c03_gen
-    full = parse_entries(norm_line(impl.run('validate %d -' % f)))
+    raw = impl.run('validate %d -' % f)
+    full = parse_entries(norm_line(raw))
     try:
         want = Stateless(impl, f).run()
     except Exception as e:  # noqa
         return None if not full else 'stateless evaluation failed: %s: %s' % (type(e).__name__, e)
+    if raw.startswith('exn'):
+        return ('fit %d: validate() raised %s instead of returning or raising ValidationError; the stateless rules '
+                'give %s' % (f, raw[4:], want or 'no error'))
     live = impl.fit_item_keys(f)
     for k in full:
         if k not in live:
@@ -508,9 +550,11 @@ def oracle_point(impl, f, rng=None):
                     diff.append('item %s restriction %d: rules say %s, validate() says %s' % (k, rt, a.get(rt), b.get(rt)))
         return 'fit %d: ' % f + '; '.join(diff[:4])
     types = c03_gen.RESTRICTION_TYPES
-    subsets = [[t] for t in types]
-    if rng is not None:
+    if rng is not None and not all_singletons:
+        subsets = [[t] for t in rng.sample(types, 3)] + [[t] for t in sorted({rt for v in full.values() for rt in v})][:4]
         subsets.append(sorted(rng.sample(types, rng.randint(2, len(types) - 1))))
+    else:
+        subsets = [[t] for t in types]
     for sub in subsets:
         got = parse_entries(norm_line(impl.run('validate %d %s' % (f, ','.join(map(str, sub))))))
         exp = {}
@@ -539,7 +583,7 @@ def oracle_history(ulines, oplines, fits, rng=None, every=True):
         for f in fits:
             if f not in impl.fits:
                 continue
-            why = oracle_point(impl, f, rng)
+            why = oracle_point(impl, f, rng, all_singletons=(k == len(oplines) - 1))
             if why:
                 return k, why
     return None
@@ -589,6 +633,81 @@ def shrink_oracle(ulines, oplines, fits, budget=150):
 
 # ---------------------------------------------------------------------------
 
+def _work(job):
+    exe, hs, pens, base = job
+    common.NPROC = '2'
+    r = Result()
+    try:
+        run_histories(exe, hs, pens, r)
+    except common.TieBroken as e:
+        r.tie = '%s: %s' % (e.what, e.detail)
+    for d in r.disagreements + r.engine_disagreements:
+        d['abs'] = d['history'] + base
+    r.nontrivial = set()
+    return r
+
+
+def merge(res, part):
+    if getattr(part, 'tie', None):
+        raise common.TieBroken('model driver restr', part.tie)
+    for k in ('histories', 'ops', 'validations', 'failing_validations', 'internal'):
+        setattr(res, k, getattr(res, k) + getattr(part, k))
+    res.disagreements += part.disagreements
+    res.engine_disagreements += part.engine_disagreements
+    for name in ('rtype_hist', 'kind_hist', 'op_hist'):
+        a, b = getattr(res, name), getattr(part, name)
+        for k, v in b.items():
+            a[k] = a.get(k, 0) + v
+    res.contents |= part.contents
+    res.model_aborted += part.model_aborted
+    if len(res.samples) < 2:
+        res.samples += part.samples[:2 - len(res.samples)]
+
+
+
+# ---------------------------------------------------------------------------
+# the model driver: engine_driver.ml (owned by the engine model) over the
+# extended system, plus ocaml/restr_extra.ml; regenerated so that it follows
+# the engine driver's command set
+# ---------------------------------------------------------------------------
+
+def gen_driver():
+    src = open(os.path.join(common.VERIF, 'ocaml', 'engine_driver.ml')).read()
+    extra = open(os.path.join(common.VERIF, 'ocaml', 'restr_extra.ml')).read()
+
+    def sub(old, new, count=1):
+        nonlocal src
+        if src.count(old) < 1:
+            raise common.TieBroken('restr driver generation', 'anchor not found in engine_driver.ml: %r' % old[:60])
+        src = src.replace(old, new) if count == 0 else src.replace(old, new, count)
+    sub('let world = ref (init_sys [])', 'let world = ref (init_sys [])\nlet rr : rregs ref = ref []')
+    sub('let (w, r) = step !world o in\n  world := w;',
+        'let ((w, rr\'), r) = xstep (!world, !rr) o in\n  world := w; rr := rr\';')
+    sub('world := init_sys !pen;', 'world := init_sys !pen; rr := [];', 0)
+    sub('let handle toks =', extra + '\nlet handle toks =')
+    sub('  | ["counters"] ->', '  | ["validate"; f; skip] -> do_validate f skip\n  | ["rregs"; f] -> rregs_s f\n  | ["counters"] ->')
+    src = '(* GENERATED by harness/c03.py from engine_driver.ml + restr_extra.ml -- do not edit *)\n' + src \
+        if not src.startswith('(* prelude') else src.replace('\n', '\n(* GENERATED by harness/c03.py from engine_driver.ml + restr_extra.ml -- do not edit *)\n', 1)
+    path = os.path.join(common.VERIF, 'ocaml', 'restr_driver.ml')
+    if not os.path.exists(path) or open(path).read() != src:
+        open(path, 'w').write(src)
+    # extraction file: everything the engine driver needs plus the restriction layer
+    xe = open(os.path.join(common.COQ, 'extract', 'X_engine.v')).read()
+    m = re.search(r'From EosV Require Import (.*?)\.\s*\nExtraction Language OCaml\.\s*Extraction "extract/out/engine\.ml"([^.]*)\.', xe, re.S)
+    if not m:
+        raise common.TieBroken('restr driver generation', 'unexpected shape of extract/X_engine.v')
+    names = [n for n in m.group(2).split() if n != 'step']
+    mine = ['xstep', 'xinit', 'xvalidate', 'step', 'fr_get', 'rr_get', 'all_rids', 'rid_num']
+    xr = ('(* GENERATED by harness/c03.py from extract/X_engine.v -- do not edit *)\n'
+          'From Coq Require Import ZArith QArith ExtrOcamlBasic.\n'
+          'From EosV Require Import %s model.Restrictions.\nExtraction Language OCaml.\n'
+          'Extraction "extract/out/restr.ml" %s.\n' % (' '.join(m.group(1).split()), ' '.join(mine + [n for n in names if n not in mine])))
+    path = os.path.join(common.COQ, 'extract', 'X_restr.v')
+    if not os.path.exists(path) or open(path).read() != xr:
+        with common.Lock():
+            open(path, 'w').write(xr)
+
+
 def corpus_cases():
     out = []
     d = os.path.join(common.VERIF, 'corpus', 'C03')
@@ -611,7 +730,14 @@ def run(rep):
     import c03_gen
     rng = random.Random(rep.seed)
     n = 320 if rep.tier == 'quick' else 20000
+    rep.broken = []
+    pre_broken = []
+    try:
+        gen_driver()
+    except common.TieBroken as e:
+        pre_broken.append('%s: %s' % (e.what, e.detail))
     proved = common.prove(rep, PROP_FILE, TABLES, ['extract/X_restr.vo'])
+    rep.broken += pre_broken
     if proved and rep.tier == 'thorough':
         common.coqchk(rep, PROP_FILE)
     eng_impl.set_penalty_base(0.5)
@@ -632,14 +758,17 @@ def run(rep):
     res = Result()
     try:
         exe = common.build_driver('restr')
-        # shard to bound memory of the in-process side
-        step = 400
-        for k in range(0, len(histories), step):
-            run_histories(exe, histories[k:k + step], pens, res)
-            # indices are per chunk: rebase
-            for d in res.disagreements + res.engine_disagreements:
-                if 'abs' not in d:
-                    d['abs'] = d['history'] + k
+        step = 60
+        jobs = [(exe, histories[k:k + step], pens, k) for k in range(0, len(histories), step)]
+        import multiprocessing
+        nproc = max(1, min(8, (os.cpu_count() or 2) // 2, len(jobs)))
+        if nproc > 1:
+            with multiprocessing.get_context('fork').Pool(nproc) as pool:
+                parts = pool.map(_work, jobs)
+        else:
+            parts = [_work(j) for j in jobs]
+        for part in parts:
+            merge(res, part)
     except common.TieBroken as e:
         rep.broken.append('%s: %s' % (e.what, e.detail))
     rep.cov['evaluations'] = res.validations
@@ -652,6 +781,12 @@ def run(rep):
     rep.cov['operation_histogram'] = res.op_hist
     rep.cov['outcome_histogram'] = res.kind_hist
     rep.cov['histories_ended_by_internal_error'] = res.internal
+    rep.cov['histories_model_driver_aborted'] = len(res.model_aborted)
+    if res.model_aborted:
+        os.makedirs(os.path.join(common.WORK, 'c03'), exist_ok=True)
+        rep.cov['model_driver_aborted_note'] = ('the extracted engine model overflowed the stack or exceeded 60 s on these '
+                                                'histories (engine model, not the restriction layer); they are excluded '
+                                                'from the comparison; first one: ' + ' | '.join(res.model_aborted[0][-6:]))
     rep.cov['samples'] = res.samples
     rep.cov['exhaustive'] = False
     finish(rep, corpus, gens, res, rng)
